@@ -25,7 +25,7 @@ PROPS = {
                 fresh_process=True, partial=[]),
     'C08': dict(facts=['Ids'], keys=['C08'], tkeys=[], suites=[('rename', 2000, 50000)], partial=[]),
     'C09': dict(facts=['Shared'], keys=['C09', 'C09side'], tkeys=[], suites=[('union', 1500, 40000)], partial=[]),
-    'C10': dict(facts=[], keys=['C10'], tkeys=[], suites=[('c10', 2000, 50000)], partial=[]),
+    'C10': dict(facts=[], keys=['C10'], tkeys=['K:ns-certificate', 'T:phase1', 'T:layers'], suites=[('c10', 4000, 80000)], partial=[]),
     'C11': dict(facts=[], keys=['C11'], tkeys=['T:phase2-longestpath', 'T:layers'], suites=[('c11', 2000, 50000)], partial=[]),
     'C12': dict(facts=[], keys=['C12'], tkeys=['T:crossings', 'K:ordered', 'T:break', 'T:phase4-sinkcoloring', 'T:phase4-valign', 'T:phase4-packright', 'T:phase5', 'T:output'], suites=[('c12', 2000, 50000), ('c12-deep', 6, 60)], partial=[]),
     'C13': dict(facts=[], keys=['C13'], tkeys=['T:crossings', 'K:ordered'], suites=[('c13', 2000, 50000)], partial=[]),
